@@ -449,3 +449,101 @@ Proof.
   rewrite Z.mod_small by lia.
   destruct (Z.ltb_spec x 4294966272) as [L|L]; destruct (Z.gtb_spec (x + 1) (4294967295 - 1023)); lia.
 Qed.
+
+(* ---------------------------------------------------------------- C16: no chunk under a superseded token *)
+
+Definition inv2 (s : st) : Prop :=
+  tokens_monotone_rev (wire_rev s) = true /\ forall c rest, wire_rev s = c :: rest -> (c_inst c <= live s)%nat.
+
+Lemma mono_cons : forall c p rest,
+  tokens_monotone_rev (c :: p :: rest) = (c_inst p <=? c_inst c)%nat && tokens_monotone_rev (p :: rest).
+Proof. reflexivity. Qed.
+
+Lemma inv2_frame : forall s s', wire_rev s' = wire_rev s -> live s' = live s -> inv2 s -> inv2 s'.
+Proof. intros s s' W L [A B]. split; rewrite W; [exact A|]. intros c rest H. rewrite L. eapply B; exact H. Qed.
+
+Ltac sender_case St :=
+  unfold sstep in St;
+  match type of St with context [nth_error ?l ?t] =>
+    let pc := fresh "pc" in
+    destruct (nth_error l t) as [pc|] eqn:Ht; [|discriminate]; destruct pc; try discriminate
+  end.
+
+Lemma step_inv2 : forall s e s', inv s -> inv2 s -> renew_ok s e = true -> step s e = Some s' -> inv2 s'.
+Proof.
+  intros s e s' I I2 Ok St.
+  destruct e; cbn in St.
+  - inversion St; subst. apply (inv2_frame s); [reflexivity|reflexivity|exact I2].
+  - sender_case St. destruct (gate s); try discriminate. inversion St; subst. apply (inv2_frame s); [reflexivity|reflexivity|exact I2].
+  - sender_case St. inversion St; subst. apply (inv2_frame s); [reflexivity|reflexivity|exact I2].
+  - sender_case St. inversion St; subst. apply (inv2_frame s); [reflexivity|reflexivity|exact I2].
+  - sender_case St. destruct (ilock s i); try discriminate. inversion St; subst. apply (inv2_frame s); [reflexivity|reflexivity|exact I2].
+  - (* EChunk *)
+    sender_case St. inversion St; subst; clear St.
+    assert (NM : mid (r s) = false) by (eapply not_mid_if_not_quiet; [exact I|exact Ht|reflexivity]).
+    assert (Ei : i = active s) by (eapply (J1 _ I); [exact Ht|reflexivity]). subst i.
+    pose proof (live_active _ NM) as LA. destruct I2 as [A B].
+    assert (L' : forall pc', live (set_ss (emit s (active s) id (Nat.eqb k n) false (OwnS t)) pc') = active s)
+      by (intro; unfold live; cbn; fold (live s); exact LA).
+    split.
+    + cbn -[tokens_monotone_rev]. destruct (wire_rev s) as [|p rest] eqn:W; [reflexivity|].
+      rewrite mono_cons. cbn [c_inst]. rewrite A, andb_true_r. apply Nat.leb_le. rewrite <- LA. eapply B; reflexivity.
+    + intros c rest H. cbn in H. inversion H; subst. cbn [c_inst]. rewrite L'. apply Nat.le_refl.
+  - sender_case St. inversion St; subst. apply (inv2_frame s); [reflexivity|reflexivity|exact I2].
+  - sender_case St. inversion St; subst. apply (inv2_frame s); [reflexivity|reflexivity|exact I2].
+  - destruct (r s) eqn:R; try discriminate. inversion St; subst. apply (inv2_frame s); [reflexivity|unfold live; cbn; rewrite R; reflexivity|exact I2].
+  - destruct (r s) eqn:R; try discriminate. inversion St; subst. apply (inv2_frame s); [reflexivity|unfold live; cbn; rewrite R; reflexivity|exact I2].
+  - destruct (r s) eqn:R; try discriminate. destruct (Nat.eqb (pending s) 0); try discriminate. inversion St; subst.
+    apply (inv2_frame s); [reflexivity|unfold live; cbn; rewrite R; reflexivity|exact I2].
+  - destruct (r s) eqn:R; try discriminate. destruct (ilock s i); try discriminate. inversion St; subst.
+    apply (inv2_frame s); [reflexivity|unfold live; cbn; rewrite R; reflexivity|exact I2].
+  - (* ERenCopy *)
+    destruct (r s) eqn:R; try discriminate. inversion St; subst; clear St. destruct I2 as [A B].
+    split; [exact A|]. intros c rest H. cbn in H. unfold live. cbn.
+    pose proof (B _ _ H) as X. unfold live in X. rewrite R in X. pose proof (J5a _ I). lia.
+  - (* ERenOpn *)
+    destruct (r s) eqn:R; try discriminate. inversion St; subst; clear St. destruct I2 as [A B].
+    assert (Lv : live s = j) by (unfold live; rewrite R; reflexivity).
+    split.
+    + cbn -[tokens_monotone_rev]. destruct (wire_rev s) as [|p rest] eqn:W; [reflexivity|].
+      rewrite mono_cons. cbn [c_inst]. rewrite A, andb_true_r. apply Nat.leb_le. rewrite <- Lv. eapply B; reflexivity.
+    + intros c rest H. cbn in H. inversion H; subst. unfold live. cbn. apply Nat.le_refl.
+  - (* ERenInstall *)
+    destruct (r s) eqn:R; try discriminate. inversion St; subst; clear St.
+    apply (inv2_frame s); [reflexivity| |exact I2]. unfold live. cbn. rewrite R. reflexivity.
+  - cbn in Ok. discriminate.
+  - (* ERenUnlock *)
+    destruct (r s) eqn:R; try discriminate; inversion St; subst; clear St.
+    + apply (inv2_frame s); [reflexivity| |exact I2]. unfold live. cbn. rewrite R. reflexivity.
+    + exfalso. eapply (J5d _ I). exact R.
+Qed.
+
+Lemma tokens_ok_partial : forall a b s, reachableP renew_ok a b s -> tokens_monotone_rev (wire_rev s) = true.
+Proof.
+  intros a b s [evs R].
+  assert (G : forall evs s0 s1, inv s0 -> inv2 s0 -> runP renew_ok evs s0 = Some s1 -> inv2 s1).
+  { induction evs0 as [|e rest IH]; cbn; intros s0 s1 I I2 R0.
+    - inversion R0; subst; exact I2.
+    - destruct (renew_ok s0 e) eqn:Ok; try discriminate. destruct (step s0 e) eqn:E; try discriminate.
+      eapply IH; [eapply step_inv; eassumption|eapply step_inv2; eassumption|exact R0]. }
+  refine (proj1 (G evs _ _ (inv_init a b) _ R)). split; [reflexivity|]. intros c rest H. cbn in H. discriminate.
+Qed.
+
+(* ---------------------------------------------------------------- C16: the renewal instant *)
+
+From Opcua Require Import Gen.SendSide.
+
+(* the renewal delay is at least half and less than the whole lifetime, for every lifetime of at least 8 ns
+   (lifetimes are whole milliseconds on the wire) *)
+Lemma renewal_delay_bounds : forall L, 8 <= L -> L <= 2 * go_renewalDelay L /\ go_renewalDelay L < L.
+Proof.
+  intros L HL. unfold go_renewalDelay. rewrite Z.quot_div_nonneg by lia.
+  pose proof (Z.div_mod L 4 ltac:(lia)). pose proof (Z.mod_pos_bound L 4 ltac:(lia)). split; lia.
+Qed.
+
+(* lifetimes are whole milliseconds on the wire: exactly 75 % *)
+Lemma renewal_delay_ms : forall ms, 0 <= ms -> go_renewalDelay (ms * 1000000) = ms * 750000.
+Proof.
+  intros ms H. unfold go_renewalDelay. replace (ms * 1000000) with ((ms * 250000) * 4) by lia.
+  rewrite Z.quot_mul by lia. lia.
+Qed.
